@@ -244,11 +244,24 @@ def unary(env, n):
         else:
             cs = tuple([int(r.integers(1, 3))] + tgt)        # constant of higher rank: broadcast the expression
         c = const_like(r, cs)
+        if r.random() < 0.25:
+            # constants of an integer dtype NumPy accepts (unsigned ones included): the values are what counts
+            dt = str(r.choice(['uint8', 'int8', 'int64', 'uint32']))
+            c = (np.abs(c) if dt.startswith('u') else c).astype(dt)
+            cf = c.astype(float)
+        else:
+            dt, cf = None, c
         try:
             if op == 'addc':
-                return Node(e + c if r.random() < 0.5 else c + e, v + c, n.kind, '(%s)+c%s' % (n.desc, cs))
+                u = r.random()
+                if u < 0.35:
+                    return Node(e + c, v + cf, n.kind, '(%s)+c%s%s' % (n.desc, cs, dt or ''))
+                if u < 0.7:
+                    return Node(c + e, v + cf, n.kind, 'c%s%s+(%s)' % (cs, dt or '', n.desc))
+                return Node(e - c, v - cf, n.kind, '(%s)-c%s%s' % (n.desc, cs, dt or ''))
             if op == 'rsubc':
-                return Node(c - e, c - v, n.kind, 'c%s-(%s)' % (cs, n.desc))
+                return Node(c - e, cf - v, n.kind, 'c%s%s-(%s)' % (cs, dt or '', n.desc))
+            c = cf
             if len(cs) == 2 and cs == tuple(shp) and r.random() < 0.35:
                 # the constant as a scipy.sparse matrix: '*' must still be the element-wise product (or raise)
                 import scipy.sparse as _sp
